@@ -306,14 +306,14 @@ async def _min_max(
             raise ValueError(f"{name}() arg is an empty sequence")
         elif key is None:
             async for item in item_iter:
-                if invert ^ (item < best):
+                if (best < item) if invert else (item < best):
                     best = item
         else:
             key = _awaitify(key)
             best_key = await key(best)
             async for item in item_iter:
                 item_key = await key(item)
-                if invert ^ (item_key < best_key):
+                if (best_key < item_key) if invert else (item_key < best_key):
                     best = item
                     best_key = item_key
     return best
